@@ -46,7 +46,7 @@ Proof.
       destruct (CS fr HT) as [W G].
       destruct (hdr_step_reference _ dec_field enc_field enc_set_max cfg h0 evs fr q CL Hd RQ IHF W G)
         as (n & carry & _ & (fs & n' & carry' & _ & _ & GP)).
-      destruct (GP Hd') as (_ & O & _ & _). eapply oth_trans; [|exact O]. apply oth_same_strms. reflexivity.
+      destruct (GP Hd') as (_ & O & _). eapply oth_trans; [|exact O]. apply oth_same_strms. reflexivity.
     + rewrite step_EvSL, Hd, RQ in *.
       eapply oth_trans; [apply (oth_same_strms _ _ c (upd_readerQ c q)); reflexivity|].
       eapply hmvs_other; [|exact Hd'].
